@@ -140,7 +140,8 @@ def tlc(module, cfg, *, workdir, workers=1, env=None, timeout=600, xmx="3g", xss
         raise ToolError("TLC timed out after %ss on %s/%s" % (timeout, module, cfg))
     if r.rc not in ok_rcs:
         tail = "\n".join(r.lines[-40:])
-        raise ToolError("TLC failed rc=%s on %s/%s\n%s" % (r.rc, module, cfg, tail))
+        why = next((ln.strip()[:300] for ln in r.lines if re.search(r"OutOfMemory|StackOverflow|GC overhead|Error:|Exception|Attempted to|was not", ln)), "")
+        raise ToolError("TLC failed rc=%s on %s/%s [%s]\n%s" % (r.rc, module, cfg, why, tail))
     return r
 
 
